@@ -26,8 +26,16 @@ Bool2 == {Bin(o, A, Bin("+", One, R)) : o \in RelOps} \cup {Bin(o, Bin("*", A, T
          \cup {Bin(l1, Rel("<"), Bin(l2, Rel("="), Rel(">="))) : l1 \in LogOps, l2 \in LogOps}
          \cup {Un("NOT", Bin(l, Rel("<"), Rel("="))) : l \in LogOps} \cup {Bin(l, Un("NOT", Rel("<")), Rel("=")) : l \in LogOps}
          \cup {Interval(One, "<=", A, "<", Bin("+", Two, One)), Interval(Un("-", One), "<", A, "<=", R)}
-         \cup {Bin("IN", A, Agg(<<One, Two, Bin("+", One, Two)>>)), Bin("IN", A, Agg(<<Rep(One, Two), Two>>)), Bin("IN", A, Agg(<<One, One, Two>>))}
-         \cup {Bin("LIKE", Lit("id", "a3"), Lit("str", v)) : v \in {"abc", "it''s", "a b", ""}}
+         \cup {Bin("IN", A, Agg(<<One, Two, Bin("+", One, Two)>>)), Bin("IN", A, Agg(<<Rep(One, Two), Two>>)), Bin("IN", A, Agg(<<One, One, Two>>)),
+               \* a repetition count need not be a literal; and the literals 0 and 1 used as a count elsewhere stay ordinary elements here
+               Bin("IN", A, Agg(<<Rep(One, A)>>)), Bin("IN", A, Agg(<<Rep(Two, Bin("+", A, One)), One>>)),
+               Bin("IN", A, Agg(<<Rep(Two, Lit("int", "0"))>>)), Bin("IN", A, Agg(<<Lit("int", "0"), Lit("int", "0"), One>>)),
+               Bin("IN", A, Agg(<<Rep(A, Call("ABS", <<A>>)), Rep(One, One)>>))}
+         \cup {Bin("LIKE", Lit("id", "a3"), Lit("str", v)) : v \in {"abc", "it''s", "a b", "",
+                   \* literals longer than a short line (the printer splits them) with doubled apostrophes inside, at the cut and at the end
+                   "a long literal that doesn''t fit on one line of forty characters, isn''t it''",
+                   "''''''''''''''''''''''''''''''''''''''''''''''''''''''''''''",
+                   "0123456789012345678901234567890123456789''0123456789012345678901234567890123456789"}}
          \cup {Bin("=", Lit("id", "a3"), Bin("+", Lit("str", "x"), Lit("str", "y")))}
 BoolCases == {[kind |-> "bool", e |-> x] : x \in Bool2}
 Cases == NumCases \cup BoolCases
